@@ -576,3 +576,224 @@ Proof.
   destruct (json_accepts _) eqn:Ea; try discriminate.
   intros E. injection E as <-. cbn. repeat split; try reflexivity; try assumption. eauto.
 Qed.
+
+(* ---------- 9. `fits` from plain size bounds ---------- *)
+Lemma enc_len_le k c : lenN c < two64 -> lenN (enc k c) <= lenN c + 9.
+Proof.
+  intros Hc.
+  assert (Hh : forall off, lenN (enc_hdr off (lenN c)) <= 9).
+  { intros off. unfold enc_hdr. destruct (N.ltb_spec (lenN c) 56).
+    - change (lenN [n2b (off + lenN c)]) with 1. lia.
+    - rewrite lenN_cons. pose proof (be_len_bounds (lenN c)). lia. }
+  destruct k; cbn [enc].
+  - destruct (is_single_low c) eqn:E; [lia|]. rewrite lenN_app. pose proof (Hh 128). lia.
+  - rewrite lenN_app. pose proof (Hh 192). lia.
+Qed.
+
+Lemma str_fits_len s : lenN s < two64 -> fits (Str s) = true /\ lenN (encode (Str s)) <= lenN s + 9.
+Proof.
+  intros Hs. split.
+  - cbn [fits]. destruct (N.ltb_spec (lenN s) two64); [reflexivity|lia].
+  - rewrite encode_Str. now apply enc_len_le.
+Qed.
+
+Lemma uint_item_fits n : n < 2 ^ 256 -> fits (uint_item n) = true /\ lenN (encode (uint_item n)) <= 41.
+Proof.
+  intros Hn. unfold uint_item.
+  pose proof (be_of_N_len_le n 32) as L. change (256 ^ 32) with (2 ^ 256) in L. specialize (L Hn).
+  assert (lenN (be_of_N n) < two64) by (unfold two64; lia).
+  destruct (str_fits_len _ H) as [F Le]. split; [exact F|lia].
+Qed.
+
+(* plain bounds: 256-bit numbers, a recipient of at most 20 bytes, less than 4 GiB of data *)
+Definition tx_bounded (t : tx) : Prop :=
+  t_nonce t < 2 ^ 256 /\ t_price t < 2 ^ 256 /\ t_gas t < 2 ^ 256 /\ t_value t < 2 ^ 256 /\
+  t_v t < 2 ^ 256 /\ t_r t < 2 ^ 256 /\ t_s t < 2 ^ 256 /\
+  (match t_to t with Some a => lenN a <= 20 | None => True end) /\ lenN (t_data t) < 2 ^ 32.
+Definition signer_bounded (sg : signer) : Prop := match sg with EIP155 c => c < 2 ^ 256 | _ => True end.
+
+Lemma fits_list_app l1 l2 : fits_list (l1 ++ l2) = fits_list l1 && fits_list l2.
+Proof. unfold fits_list. apply forallb_app. Qed.
+
+Lemma encode_list_app l1 l2 : encode_list (l1 ++ l2) = encode_list l1 ++ encode_list l2.
+Proof. unfold encode_list. apply flat_map_app. Qed.
+
+Lemma sig_fields_fits t : tx_bounded t ->
+  fits_list (sig_fields t) = true /\ lenN (encode_list (sig_fields t)) <= 4 * 41 + 29 + 2 ^ 32 + 9.
+Proof.
+  intros (Hn & Hp & Hg & Hv & _ & _ & _ & Hto & Hd).
+  destruct (uint_item_fits _ Hn) as [F1 L1], (uint_item_fits _ Hp) as [F2 L2],
+           (uint_item_fits _ Hg) as [F3 L3], (uint_item_fits _ Hv) as [F5 L5].
+  assert (Hsa : exists sa, to_item (t_to t) = Str sa /\ lenN sa <= 20).
+  { destruct (t_to t) as [a|]; [exists a|exists []]; split; try reflexivity; try assumption. cbn. lia. }
+  destruct Hsa as (sa & E4 & Hsa).
+  assert (Hto' : lenN sa < two64) by (unfold two64; lia).
+  destruct (str_fits_len _ Hto') as [F4 L4].
+  assert (Hd' : lenN (t_data t) < two64) by (unfold two64; lia).
+  destruct (str_fits_len _ Hd') as [F6 L6].
+  unfold sig_fields, fits_list. cbn [forallb]. rewrite E4, F1, F2, F3, F4, F5, F6. split; [reflexivity|].
+  rewrite !encode_list_cons, !lenN_app. change (lenN (encode_list [])) with 0.
+  lia.
+Qed.
+
+Theorem tx_bounded_fits sg t :
+  tx_bounded t -> signer_bounded sg -> fits (sighash_item sg t) = true /\ fits (tx_item t) = true.
+Proof.
+  intros B Bs. pose proof (sig_fields_fits t B) as [Ff Lf].
+  destruct B as (_ & _ & _ & _ & Hv & Hr & Hs & _ & _).
+  assert (Tail : forall a b c, a < 2 ^ 256 -> b < 2 ^ 256 -> c < 2 ^ 256 ->
+            fits (Lst (sig_fields t ++ [uint_item a; uint_item b; uint_item c])) = true).
+  { intros a b c Ha Hb Hc.
+    destruct (uint_item_fits _ Ha) as [F1 L1], (uint_item_fits _ Hb) as [F2 L2], (uint_item_fits _ Hc) as [F3 L3].
+    rewrite fits_Lst, fits_list_app, Ff. unfold fits_list at 1. cbn [forallb]. rewrite F1, F2, F3. cbn [andb].
+    rewrite encode_list_app, lenN_app, !encode_list_cons, !lenN_app. change (lenN (encode_list [])) with 0.
+    destruct (N.ltb_spec (lenN (encode_list (sig_fields t)) +
+       (lenN (encode (uint_item a)) + (lenN (encode (uint_item b)) + (lenN (encode (uint_item c)) + 0)))) two64) as [|G];
+      [reflexivity|]. unfold two64 in G. lia. }
+  split.
+  - destruct sg as [| |c]; cbn [sighash_item]; try apply Tail; cbn in Bs; try assumption; try (cbn; lia).
+    + rewrite fits_Lst, Ff. destruct (N.ltb_spec (lenN (encode_list (sig_fields t))) two64) as [|G]; [reflexivity|unfold two64 in G; lia].
+    + rewrite fits_Lst, Ff. destruct (N.ltb_spec (lenN (encode_list (sig_fields t))) two64) as [|G]; [reflexivity|unfold two64 in G; lia].
+  - unfold tx_item. now apply Tail.
+Qed.
+
+(* the two security statements with plain size bounds in place of `fits` *)
+Lemma eff_signer_bounded sg t : signer_bounded sg -> signer_bounded (eff_signer sg t).
+Proof. destruct sg as [| |c]; cbn; try tauto. destruct (is_protected_v (t_v t)); cbn; tauto. Qed.
+
+Theorem sighash_injective_bounded H sg1 sg2 t1 t2 :
+  to_wf t1 -> to_wf t2 -> tx_bounded t1 -> tx_bounded t2 -> signer_bounded sg1 -> signer_bounded sg2 ->
+  sighash H sg1 t1 = sighash H sg2 t2 ->
+  (same_signed_fields t1 t2 /\ hash_domain sg1 = hash_domain sg2) \/
+  collision H (encode (sighash_item sg1 t1)) (encode (sighash_item sg2 t2)).
+Proof.
+  intros W1 W2 B1 B2 S1 S2. apply sighash_injective; try assumption.
+  - apply (tx_bounded_fits sg1 t1 B1 S1).
+  - apply (tx_bounded_fits sg2 t2 B2 S2).
+Qed.
+
+Theorem mutation_changes_sender_bounded H ecrecover sg0 t0 sg t a :
+  to_wf t0 -> to_wf t -> tx_bounded t0 -> tx_bounded t -> signer_bounded sg0 -> signer_bounded sg ->
+  ~ (same_signed_fields t0 t /\ hash_domain sg0 = hash_domain (eff_signer sg t)) ->
+  sender_signer H ecrecover sg t = Ok a ->
+  (exists h r s v, h <> sighash H sg0 t0 /\ recover_addr H ecrecover h r s v = Ok a) \/
+  collision H (encode (sighash_item sg0 t0)) (encode (sighash_item (eff_signer sg t) t)).
+Proof.
+  intros W0 W B0 B S0 S. apply mutation_changes_sender; try assumption.
+  - apply (tx_bounded_fits sg0 t0 B0 S0).
+  - apply (tx_bounded_fits _ t B (eff_signer_bounded sg t S)).
+Qed.
+
+(* ---------- 10. SignTx succeeds (liveness) when the signing primitive is correct ---------- *)
+Lemma secp_n_lt_2_256 : secp_n < 2 ^ 256.
+Proof. vm_compute. reflexivity. Qed.
+
+Lemma sig65_parts r s v :
+  r < 2 ^ 256 -> s < 2 ^ 256 -> v < 256 ->
+  lenN (sig65 r s v) = 65 /\ N_of_be (firstn 32 (sig65 r s v)) = r /\
+  N_of_be (firstn 32 (skipn 32 (sig65 r s v))) = s /\ sig_v (sig65 r s v) = v.
+Proof.
+  intros Hr Hs Hv. unfold sig65, sig_v.
+  pose proof (be_fixed_length 32 r) as Lr. pose proof (be_fixed_length 32 s) as Ls.
+  split; [|split; [|split]].
+  - unfold lenN. rewrite !app_length, Lr, Ls. reflexivity.
+  - rewrite firstn_app, Lr, firstn_all2 by lia. cbn [Nat.sub firstn]. rewrite app_nil_r.
+    apply N_of_be_fixed. exact Hr.
+  - rewrite skipn_app, Lr, skipn_all2 by lia. cbn [Nat.sub skipn app].
+    rewrite firstn_app, Ls, firstn_all2 by lia. cbn [Nat.sub firstn]. rewrite app_nil_r.
+    apply N_of_be_fixed. exact Hs.
+  - rewrite app_nth2 by lia. rewrite Lr. rewrite app_nth2 by (rewrite Ls; lia). rewrite Ls. cbn.
+    now apply b2n_n2b.
+Qed.
+
+Section SignLive.
+  Variable H : bytes -> bytes.
+  Variable ecrecover : bytes -> bytes -> option bytes.
+  Variable sign : bytes -> bytes -> option bytes.
+  Variable pub_addr : bytes -> bytes.
+
+  (* what crypto.Sign is expected to return: [R || S || recid] with R, S in range, S low,
+     recovering to the key's address *)
+  Definition sign_correct : Prop :=
+    forall key h sig, sign key h = Some sig ->
+      exists r s v, sig = sig65 r s v /\ v < 2 /\ 1 <= r < secp_n /\ 1 <= s <= secp_half_n /\
+        recover_addr H ecrecover h r s v = Ok (pub_addr key).
+
+  Theorem sign_tx_succeeds sg key t sig :
+    sign_correct -> sg <> EIP155 0 -> sign key (sighash H sg t) = Some sig ->
+    exists t', sign_tx H ecrecover sign pub_addr sg key t = SOk t' /\ same_signed_fields t t' /\
+               sender_signer H ecrecover sg t' = Ok (pub_addr key).
+  Proof.
+    intros SC Hsg Sg. destruct (SC _ _ _ Sg) as (r & s & v & -> & Hv & Hr & Hs & Rec).
+    pose proof secp_n_lt_2_256 as N256. pose proof secp_n_odd as Odd.
+    assert (Hr256 : r < 2 ^ 256) by lia. assert (Hs256 : s < 2 ^ 256) by lia.
+    destruct (sig65_parts r s v Hr256 Hs256 ltac:(lia)) as (L & Er & Es & Ev).
+    assert (Val : forall hs, validate_sig v r s hs = true).
+    { intros hs. apply validate_spec. repeat split; try lia. }
+    unfold SigningModel.sign_tx. rewrite Sg. unfold with_signature, signature_values.
+    rewrite L. cbn [N.eqb Pos.eqb negb]. rewrite Er, Es, Ev.
+    set (mk := fun vv => mkTx (t_nonce t) (t_price t) (t_gas t) (t_to t) (t_value t) (t_data t) vv r s).
+    assert (Same : forall vv, same_signed_fields t (mk vv)) by (intros; unfold same_signed_fields, mk; cbn; tauto).
+    assert (SH : forall sg' vv, sighash H sg' (mk vv) = sighash H sg' t).
+    { intros sg' vv. unfold SigningModel.sighash. now rewrite <- (same_fields_sighash_item sg' _ _ (Same vv)). }
+    assert (Done : forall t', sender_signer H ecrecover sg t' = Ok (pub_addr key) -> same_signed_fields t t' ->
+              exists t'', match sender_signer H ecrecover sg t' with
+                          | Ok from => if bytes_eqb from (pub_addr key) then SOk t' else SMismatch
+                          | Err e => SSenderErr e | Panic => SPanic end = SOk t'' /\ same_signed_fields t t'' /\
+                          sender_signer H ecrecover sg t'' = Ok (pub_addr key)).
+    { intros t' S' Sm. exists t'. rewrite S', bytes_eqb_refl. auto. }
+    destruct sg as [| |c].
+    - replace ((v + 27) mod 256) with (27 + v) by lia. apply Done; [|apply Same].
+      cbn [SigningModel.sender_signer t_r t_s t_v]. fold (mk (27 + v)).
+      rewrite (recover_plain_run H ecrecover _ r s v false Hv (Val false)), SH. exact Rec.
+    - replace ((v + 27) mod 256) with (27 + v) by lia. apply Done; [|apply Same].
+      cbn [SigningModel.sender_signer t_r t_s t_v]. fold (mk (27 + v)).
+      rewrite (recover_plain_run H ecrecover _ r s v true Hv (Val true)), SH. exact Rec.
+    - destruct (N.eqb_spec c 0) as [->|Hc]; [contradiction|].
+      replace ((v + 35) mod 256 + 2 * c) with (35 + 2 * c + v) by lia. apply Done; [|apply Same].
+      fold (mk (35 + 2 * c + v)).
+      rewrite (sender_eip155_run H ecrecover c (mk (35 + 2 * c + v)) v Hv eq_refl (Val false)).
+      cbn [mk t_r t_s]. rewrite SH. exact Rec.
+  Qed.
+End SignLive.
+
+(* ---------- 11. whole-transaction JSON round trip at the member level ---------- *)
+Lemma hex_pairs_enc b :
+  hex_pairs (flat_map (fun c => [hex_digit (b2n c / 16); hex_digit (b2n c mod 16)]) b) = Some b.
+Proof.
+  induction b as [|c b IH]; [reflexivity|].
+  cbn [flat_map app hex_pairs]. pose proof (b2n_lt c) as L.
+  destruct (nibble_hex_digit (b2n c / 16) ltac:(lia)) as [N1 _].
+  destruct (nibble_hex_digit (b2n c mod 16) ltac:(lia)) as [N2 _].
+  rewrite N1, N2, IH. replace (16 * (b2n c / 16) + b2n c mod 16) with (b2n c) by lia.
+  now rewrite n2b_b2n.
+Qed.
+
+Lemma dec_enc_hexbytes b : dec_hexbytes (enc_hexbytes b) = Some b.
+Proof. unfold dec_hexbytes, enc_hexbytes. change (b2n x30 =? 48) with true. change (b2n x78 =? 120) with true. cbn [andb orb]. apply hex_pairs_enc. Qed.
+
+Lemma dec_fixed_enc w b : lenN b = w -> dec_fixed w (enc_hexbytes b) = Some b.
+Proof. intros L. unfold dec_fixed. rewrite dec_enc_hexbytes, L, N.eqb_refl. reflexivity. Qed.
+
+(* MarshalJSON then UnmarshalJSON returns the same transaction (so the same hash and sender),
+   for every transaction UnmarshalJSON's own signature check accepts, with 64-bit nonce / gas and
+   256-bit amounts (hexutil.Big's limit) *)
+Theorem json_roundtrip t h :
+  t_nonce t < 2 ^ 64 -> t_gas t < 2 ^ 64 ->
+  t_price t < 2 ^ 256 -> t_value t < 2 ^ 256 -> t_v t < 2 ^ 256 -> t_r t < 2 ^ 256 -> t_s t < 2 ^ 256 ->
+  (match t_to t with Some a => lenN a = 20 | None => True end) -> lenN h = 32 ->
+  json_accepts t = true ->
+  tx_of_json (json_of_tx t h) = Some t.
+Proof.
+  intros Hn Hg Hp Hv Hsv Hsr Hss Hto Hh Acc.
+  unfold tx_of_json, json_of_tx, req_quantity.
+  cbn [j_nonce j_price j_gas j_to j_value j_input j_v j_r j_s j_hash].
+  rewrite !(quantity_roundtrip 16) by (try lia; change (16 ^ 16) with (2 ^ 64); assumption).
+  rewrite !(quantity_roundtrip 64) by (try lia; change (16 ^ 64) with (2 ^ 256); assumption).
+  rewrite dec_enc_hexbytes, (dec_fixed_enc 32 h Hh).
+  assert (T : match match t_to t with Some a => JS (enc_hexbytes a) | None => JAbsent end with
+              | JAbsent => Some None | JS s => option_map Some (dec_fixed 20 s) | JBad => None end = Some (t_to t)).
+  { destruct (t_to t) as [a|]; [|reflexivity]. now rewrite (dec_fixed_enc 20 a Hto). }
+  rewrite T. replace (mkTx (t_nonce t) (t_price t) (t_gas t) (t_to t) (t_value t) (t_data t) (t_v t) (t_r t) (t_s t)) with t by now destruct t.
+  now rewrite Acc.
+Qed.
